@@ -257,7 +257,13 @@ def rule_a(ctx):
     am.let("shape", "arr.shape")
     ok = all(am.has(f.node, t) is not None for t in (f"arr_3d = np.zeros(({f.params[2]}, *shape), dtype=arr.dtype)", f"return type({f.params[0]})(img=arr_3d, **meta)")) \
         and any(am.has(f.node, t) is not None for t in (f"for i in range({f.params[2]}):\n    arr_3d[i, ...] = arr", "arr_3d[...] = arr", "arr_3d[:] = arr", "arr_3d[:, ...] = arr"))
-    ctx.ob(R, f.qname, "the new axis is matrix axis 0 of the array", ok, str(am.show()), f.node)
+    # named contradiction: np.tile(array, reps) with a literal reps tuple of length L prepends an axis only to arrays of exactly L - 1 axes; an image
+    # with payload axes (vector data, time series) has more, and its first axis is repeated instead of a new one being added
+    tiles = [c_ for c_ in ast.walk(f.node) if isinstance(c_, ast.Call) and norm(c_.func) == "np.tile" and len(c_.args) == 2 and isinstance(c_.args[1], ast.Tuple)
+             and f"{f.params[0]}.img" in norm(expand(f.node, c_.args[0]))]
+    ctx.ob(R, f.qname, "the new axis is matrix axis 0 of the array", ok,
+           (f"`{norm(tiles[0])[:60]}`: for an array with more than {len(tiles[0].args[1].elts) - 1} axes (vector / series payload) numpy repeats the existing first axis {norm(tiles[0].args[1].elts[0])} times "
+            "instead of adding one: rows are multiplied, no layer axis exists; " if tiles and not ok else "") + str(am.show()), f.node, evidence=bool(tiles) and not ok)
     ctx.floor(R, 8)
 
 
